@@ -98,7 +98,8 @@ def construct(case):
     if case.get('direct'):
         # the same logical state through a directly built container: data dictionary in reversed insertion order, ancilla dictionary
         # sparse (only the non-ZERO entries; an absent key means ZERO) and in reversed order
-        data = {i: STATE[b] for i, b in reversed(list(enumerate(case['init'])))}
+        data = {i: STATE[b] for i, b in reversed(list(enumerate(case['init']))) if b or not case.get('sparse_data')}
+        # (sparse_data: the data dictionary too lists only the non-ZERO entries -- an ancilla index need not be a data key)
         ancd = {i: STATE[b] for i, b in reversed(list(enumerate(anc or []))) if b}
         init = InitialStateContainer(initial_states=data, ancilla_initial_states=ancd)
     else:
